@@ -22,3 +22,12 @@ Theorem C02_failure_changes_nothing : C02_failure_changes_nothing_stmt.
 Proof. exact C02_failure_changes_nothing_proof. Qed.
 Print Assumptions C02_failure_changes_nothing.
 
+(* the boolean monitor that judges implementation steps for this property is passed by every
+   step of the model (so the monitor demands nothing the theorems do not) *)
+From NasimV Require Import Monitors.
+From NasimV.proofs Require Import PMonitors.
+Theorem monitor_C02_sound :
+  forall sc st a k, wf_scenario sc = true -> wf_state sc st = true -> act_ok sc a ->
+    ok_C02 sc (model_rec sc st a k) = true.
+Proof. intros sc st a k WF WS A. exact (model_passes_C02 sc st a k WF WS). Qed.
+Print Assumptions monitor_C02_sound.
